@@ -160,27 +160,50 @@ async fn run_rs_case(l: &[Val]) -> Val {
                 let i = e[1].list();
                 match i[0].int() {
                     0 => {
+                        // the session comes up through the real path: apply_outputs on the FSM's
+                        // SessionNegotiated / SessionEstablished outputs (negotiate_gr, the effects it
+                        // raises), then process_effects.  Both sides advertise GR for exactly `fams`.
                         let p = i[1].u8();
                         let fams: Vec<Family> = i[2].list().iter().map(fam_of).collect();
-                        let negotiated_gr = if fams.is_empty() {
-                            None
+                        let mut caps: Vec<packet::Capability> = if fams.is_empty() {
+                            vec![packet::Capability::MultiProtocol(Family::IPV4)]
                         } else {
-                            Some(NegotiatedGr {
-                                families: fams,
-                                restart_time: Duration::from_secs(90),
-                                notification_enabled: false,
-                            })
+                            fams.iter().map(|f| packet::Capability::MultiProtocol(*f)).collect()
                         };
+                        if !fams.is_empty() {
+                            caps.push(packet::Capability::GracefulRestart {
+                                flags: 0,
+                                restart_time: 90,
+                                families: fams.iter().map(|f| (*f, 0u8)).collect(),
+                            });
+                        }
                         let tables_c = tables.clone();
                         let session = sessions.entry(p).or_insert_with(|| {
                             PeerSession::new_for_test(peer_addr(p), mk_context(), tables_c)
                         });
-                        session
-                            .process_effects(
-                                vec![GlobalEffect::GrSessionEstablished { negotiated_gr }],
-                                &global,
-                            )
-                            .await;
+                        session.local_cap = caps.clone();
+                        let codec = bgp::PeerCodec::negotiate(&caps, &caps);
+                        let role = session.role;
+                        let outputs = vec![
+                            crate::fsm::PeerFsmOutput::Connection(
+                                role,
+                                crate::fsm::Output::SessionNegotiated(codec),
+                            ),
+                            crate::fsm::PeerFsmOutput::Connection(
+                                role,
+                                crate::fsm::Output::SessionEstablished {
+                                    remote_asn: 65100 + p as u32,
+                                    remote_id: p as u32,
+                                    remote_holdtime: 90,
+                                    remote_capabilities: caps,
+                                    effective_max: FnvHashMap::default(),
+                                },
+                            ),
+                        ];
+                        let local_sa: SocketAddr = "192.0.2.254:179".parse().unwrap();
+                        let remote_sa = SocketAddr::new(peer_addr(p), 40000);
+                        let (_step, effects) = session.apply_outputs(outputs, local_sa, remote_sa).await;
+                        session.process_effects(effects, &global).await;
                     }
                     1 => {
                         let p = i[1].u8();
